@@ -262,7 +262,7 @@ Section Api.
       match eui_from_str t with
       | None => (s, AErr c_InvalidArgument)
       | Some e =>
-        if ((255 <? port) || (port <? 0))%Z then (s, AErr c_InvalidArgument)
+        if ((223 <? port) || (port <? 1))%Z then (s, AErr c_InvalidArgument)   (* FPort 1..223 carries application data *)
         else
           let m := {| dn_eui := e; dn_data := hex_enc payload; dn_port := Z.to_N port; dn_ack := ack; dn_created := now;
                       dn_sent := 0%Z; dn_acktime := 0%Z; dn_fcnt := 0 |} in
